@@ -131,6 +131,12 @@ def install(reg):
         if not args: return [(st, e.alloc(st, SetT(ANY), None))]
         a = args[0]
         if isinstance(a.t, SetT): return [(st, e.alloc(st, a.t, e.deref(st, a)))]
+        if a.src is not None and a.src[0] == 'dict-values':
+            # set(d.values()) = { v | exists k. d[k] == v }  (exact, avoids going through an arbitrary listing)
+            _, dt, D = a.src; ot_ = opt(dt.v)
+            v_ = z3.Const(fresh_name('v'), sort_of(dt.v)); k_ = z3.Const(fresh_name('k'), sort_of(dt.k))
+            z = z3.Lambda([v_], z3.Exists([k_], z3.And(z3.Not(opt_is_none(ot_, z3.Select(D, k_))), opt_val(ot_, z3.Select(D, k_)) == v_)))
+            return [(st, e.alloc(st, SetT(dt.v), z))]
         out = []
         for x, lv in e.to_list(st, a, node):
             if _isR(lv): out.append((x, lv)); continue
